@@ -279,8 +279,51 @@ func (e *Exec) mutex(p Ptr) *mutexState {
 	return m
 }
 
+// condState models a sync.Cond: Signal is treated like Broadcast (every waiter re-checks its condition, which the
+// contract of Cond.Wait makes callers do anyway)
+type condState struct {
+	locker Value
+	gen    int
+	vc     vclock
+}
+
+func (e *Exec) condLock(cs *condState, lock bool) {
+	v := cs.locker
+	if i, ok := v.(Iface); ok {
+		v = i.V
+	}
+	p, ok := v.(Ptr)
+	if !ok {
+		panic(unsupported{"sync.Cond with a locker that is not a *sync.Mutex / *sync.RWMutex"})
+	}
+	if lock {
+		e.syncIntrinsic("(*sync.Mutex).Lock", []Value{p})
+	} else {
+		e.syncIntrinsic("(*sync.Mutex).Unlock", []Value{p})
+	}
+}
+
 func (e *Exec) syncIntrinsic(name string, args []Value) (Value, bool) {
 	switch name {
+	case "(*sync.Cond).Wait":
+		cs := e.conds[ptrKey(args[0].(Ptr))]
+		if cs == nil {
+			panic(unsupported{"sync.Cond not created by sync.NewCond"})
+		}
+		g := cs.gen
+		e.condLock(cs, false)
+		e.yield(func() bool { return cs.gen != g }, "Cond.Wait")
+		e.acquire(&cs.vc)
+		e.condLock(cs, true)
+		return nil, true
+	case "(*sync.Cond).Signal", "(*sync.Cond).Broadcast":
+		cs := e.conds[ptrKey(args[0].(Ptr))]
+		if cs == nil {
+			panic(unsupported{"sync.Cond not created by sync.NewCond"})
+		}
+		e.release(&cs.vc)
+		cs.gen++
+		return nil, true
 	case "(*sync.Mutex).Lock", "(*sync.RWMutex).Lock":
 		m := e.mutex(args[0].(Ptr))
 		e.yield(func() bool { return !m.locked && m.rlocks == 0 }, "Mutex.Lock")
